@@ -345,3 +345,29 @@ Proof. reflexivity. Qed.
 
 Theorem listener_when_enabled u : start_listener false u = Some (dir_mode u).
 Proof. reflexivity. Qed.
+
+(* ---------------- the deadline of the register phase ---------------- *)
+(* the outcome of a connection whose RegisterPlugin call arrives [at_ms] after the runtime started serving it:
+   refused as timed out exactly when it arrives at or after the REGISTRATION time-out; before it, the outcome is
+   that of an immediate registration; the request time-out has no influence *)
+Theorem register_deadline t_reg t_req at_ms name idx cfg sy :
+  (t_reg <= at_ms -> handle (timed_conn t_reg t_req at_ms name idx cfg sy) = ORegTimeout) /\
+  (at_ms < t_reg -> handle (timed_conn t_reg t_req at_ms name idx cfg sy)
+                    = handle {| c_reg := RegNow name idx; c_cfg := cfg; c_sync := sy |}) /\
+  (forall t_req', timed_conn t_reg t_req at_ms name idx cfg sy = timed_conn t_reg t_req' at_ms name idx cfg sy).
+Proof.
+  unfold timed_conn, reg_at, handle. cbn [c_reg c_cfg c_sync].
+  destruct (Z.ltb_spec at_ms t_reg) as [H|H]; repeat split; try reflexivity; intros; lia.
+Qed.
+
+(* in particular: late for the registration time-out but early for a longer request time-out is still refused,
+   and late for a short request time-out but early for the registration time-out is still served *)
+Theorem register_deadline_cases t_reg t_req at_ms name idx cfg sy :
+  (t_reg <= at_ms < t_req -> ~ exists n i e, handle (timed_conn t_reg t_req at_ms name idx cfg sy) = OGood n i e) /\
+  (t_req <= at_ms < t_reg -> well_formed {| c_reg := RegNow name idx; c_cfg := cfg; c_sync := sy |} ->
+     exists n i e, handle (timed_conn t_reg t_req at_ms name idx cfg sy) = OGood n i e).
+Proof.
+  destruct (register_deadline t_reg t_req at_ms name idx cfg sy) as (A & B & _). split.
+  - intros [H _] (n & i & e & E). rewrite (A H) in E. discriminate.
+  - intros [_ H] W. rewrite (B H). apply handle_good_wf. exact W.
+Qed.
